@@ -28,6 +28,10 @@ var Corpus = [][]string{
 	// sender goes on sending: the data must still be drained
 	{"upstream u1 1", "create p1 u1 1", "tadd p1 up t1 latency 400 0 0 1", "tadd p1 up t2 timeout 0 0 0 1", "connect p1 c1", "sendnw c1 up 1000", "tdel p1 t2"},
 	{"upstream u1 1", "create p1 u1 1", "tadd p1 down t1 latency 400 0 0 1", "tadd p1 down t2 timeout 0 0 0 1", "connect p1 c1", "sendnw c1 down 1000", "treset p1"},
+	// C03: one direction of a connection has ended while the other still holds data (a toxic delays
+	// it): stopping the proxy closes the surviving side at once all the same
+	{"upstream u1 1", "create p1 u1 1", "tadd p1 down t1 latency 6000 0 0 1", "connect p1 c1", "sendnw c1 down 100", "closenw c1 client", "disable p1"},
+	{"upstream u1 1", "create p1 u1 1", "tadd p1 up t1 latency 6000 0 0 1", "connect p1 c1", "sendnw c1 up 100", "closenw c1 server", "delete p1"},
 	// C03: changing the upstream of a proxy drops the connections made so far
 	{"upstream u1 1", "upstream u2 1", "create p1 u1 1", "connect p1 c1", "send c1 up 3", "setupstream p1 u2", "connect p1 c2", "send c2 up 3"},
 }
